@@ -13,7 +13,7 @@ def hostile_contents(boundary):
     b = boundary
     return [
         b"", b"x", b"\r", b"\n", b"\r\n", b"-", b"--", b"\r\n-", b"\r\n--", b"\r\n--" + b[:-1], b"\n--" + b[:1], b"--" + b[:-1] if len(b) > 1 else b"-x",
-        b"\r\r\n", b"x\r\n--" + b[:-1] + b"\r\nz", b"\xff\xfe\x00", b"\r" + b"x" * 40, b"\n" + b"y" * 40, b"a\r\nb\r\n\r\nc", b"\r\n\r\n", "é中".encode("utf-8"),
+        b"\r\r\n", b"x\r\n--" + b[:-1] + b"\r\nz", b"\r\n" + b + b" " + b"z" * 30, b"-" + b + b"\r\n-" + b, b"\xff\xfe\x00", b"\r" + b"x" * 40, b"\n" + b"y" * 40, b"a\r\nb\r\n\r\nc", b"\r\n\r\n", "é中".encode("utf-8"),
     ]
 
 
